@@ -30,11 +30,14 @@ use super::*;
 //@include prelude/refs_spec.rs
 //@include prelude/text.rs
 //@include prelude/refs_l2.rs
+//@include prelude/position_spec.rs
 //@include build/lspspec.rs
 //@include prelude/handlers_shims.rs
 //@include prelude/handlers2_shims.rs
 } // mod pre
 use pre::*;
+
+#[verifier::external_type_specification] pub struct ExUndeclaredFixture(UndeclaredFixture);
 
 //@dbstruct definitions file_cache usages usage_by_fixture
 
